@@ -13,7 +13,7 @@ DISCHARGED, REFUTED, UNDECIDED, KNOWN = 'discharged', 'refuted', 'undecided', 'k
 
 
 class Obligation:
-    __slots__ = ('prop', 'rule', 'module', 'entry', 'site', 'line', 'facts', 'status', 'why', 'trivial')
+    __slots__ = ('prop', 'rule', 'module', 'entry', 'site', 'line', 'facts', 'status', 'why', 'trivial', 'func')
 
     def __init__(self, prop, rule, module, entry, site, line, status, why='', facts=None, trivial=False):
         self.prop = prop
@@ -95,12 +95,14 @@ class Report:
         self.notes = []
         self.coverage_extra = {}
         self.floors = {}     # rule -> min instances
+        self.incomplete = []  # further reasons why the run does not decide the property
 
     def add(self, rule, func_or_mod, entry, site, line, ok, why='', facts=None, trivial=False):
         module = getattr(func_or_mod, 'rel', None) or getattr(getattr(func_or_mod, 'module', None), 'rel', None) \
             or str(func_or_mod)
         status = DISCHARGED if ok is True else (REFUTED if ok is False else UNDECIDED)
         ob = Obligation(self.prop, rule, module, entry, site, line, status, why, facts, trivial)
+        ob.func = getattr(getattr(func_or_mod, 'inlined_from', None) or func_or_mod, 'qualname', None)
         self.obs.append(ob)
         return ob
 
@@ -113,7 +115,7 @@ class Report:
         per_rule = {}
         for ob in self.obs:
             per_rule[ob.rule] = per_rule.get(ob.rule, 0) + 1
-        incomplete = []
+        incomplete = list(self.incomplete)
         for rule, n in sorted(self.floors.items()):
             if per_rule.get(rule, 0) < n:
                 incomplete.append('rule %s matched %d instances, below the confirmed floor %d'
